@@ -49,6 +49,12 @@ def corpus():
         '#{"scalar":"validator","steps":[["e",4,"setq"],["e",6,"set"],["i",3,"set"]],"at":0,"k":0,"exc":"ValueError"}',
         '#{"scalar":"validator","steps":[["n",-2,"qset"],["n",-4,"set"],["s","q","trait_set"]],"at":0,"k":0,"exc":"RuntimeError"}',
         '#{"scalar":"validator","steps":[["dn",-3,"trait_set"],["i",2,"set"],["dn",null,"get"],["dn",5,"set"]],"at":0,"k":0,"exc":"TraitError"}',
+        # a custom validator refusing a value inside a NESTED compound whose last member accepts it; later steps are ordinary
+        '#{"scalar":"validator","steps":[["nn",2.5,"set"],["nn","second","set"],["i",3,"set"],["nn","x","set"],["e",4,"set"]],"at":4,"k":0,"exc":"ValueError"}',
+        # the same failing operation repeated on one thread, then ordinary work there
+        '#{"scalar":"repeat","site":"default","attr":"x","n":4000,"exc":"ValueError","falsy":0}',
+        '#{"scalar":"repeat","site":"getter","attr":"p","n":4000,"exc":"RuntimeError","falsy":0}',
+        '#{"scalar":"repeat","site":"validator","attr":"px","n":2500,"exc":"TraitError","falsy":0}',
     ]
 
 
